@@ -19,7 +19,9 @@ VOIGT = {(0, 0): 0, (1, 1): 1, (2, 2): 2, (1, 2): 3, (2, 1): 3, (0, 2): 4, (2, 0
 
 def bundle(rng):
     return dict(M=G.sym6(rng), x=rng.normal(size=21) * 100, y=rng.normal(size=21) * 100,
-                R1=G.haar(rng), R2=G.haar(rng), A=rng.normal(size=(3, 3)) * 10 ** rng.uniform(-1, 1))
+                R1=G.small_rot(rng) if rng.random() < 0.3 else G.haar(rng),
+                R2=G.small_rot(rng) if rng.random() < 0.3 else G.haar(rng),
+                A=rng.normal(size=(3, 3)) * 10 ** rng.uniform(-1, 1))
 
 
 def encode(b):
